@@ -1,7 +1,64 @@
 /-
   C09 — integer roots, remainders, perfect-square / perfect-power tests.
   Property theorems only; helper lemmas live in MpirProofs/Lemmas/Root.lean.
+  Every theorem is about the executable models in Mpir/Model/Root.lean (run against the real
+  library on every check) and the tables regenerated from the source in Mpir/Gen/SqrtTabs.lean.
 -/
 import MpirProofs.Lemmas.Root
 namespace Mpir.Root
+open Mpir Mpir.Gen.SqrtTabs
+
+/-- The residue filters of mpn_perfect_square_p never reject a square: if `{up, n}` has value `k²`
+    then the mod-256 probe (`sq_res_0x100`) passes and every PERFSQR_MOD_1/PERFSQR_MOD_2 test of
+    PERFSQR_MOD_TEST passes on the folded mpn_mod_34lsub1 residue.  The table facts (bit `i` set
+    whenever `i` is the modexact index of a square residue mod `d`; `inv·d ≡ 1 mod 2^49`;
+    `d ∣ 2^48-1`) are kernel-checked on the REGENERATED tables (`sqRes256_table`, `perfsqrTests_ok`). -/
+theorem perfsqr_filters_sound (up : List Nat) (k : Nat) (hl : Limbs up) (hne : up ≠ [])
+    (hn : up.length + 1 < B) (hv : val up = k * k) :
+    sqRes256 (up.headD 0) = true ∧ perfsqrModTest (perfsqrFold (mod34lsub1 up)) = true := by
+  constructor
+  · obtain ⟨x, xs, rfl⟩ := List.exists_cons_of_ne_nil hne
+    have hx := (Limbs_cons.mp hl).1
+    have : x = k * k % B := by
+      rw [← hv, val_cons, Nat.add_mul_mod_self_left, Nat.mod_eq_of_lt hx]
+    simp only [List.headD_cons]
+    rw [this]; exact sqRes256_sq k
+  · obtain ⟨hc, hlt⟩ := mod34lsub1_congr up hl hn
+    obtain ⟨fc, flt⟩ := perfsqrFold_spec _ hlt
+    have hb := bits_facts
+    have hmod : perfsqrFold (mod34lsub1 up) % (2 ^ mod34Bits - 1) = k * k % (2 ^ mod34Bits - 1) := by
+      rw [hb.2.2, fc, hc, hv]
+    have hr : perfsqrFold (mod34lsub1 up) < 2 ^ perfsqrModBits := by
+      rw [← hb.2.1, hb.2.2]; exact flt
+    unfold perfsqrModTest
+    rw [List.all_eq_true]
+    intro t ht
+    exact perfsqrTest_sq t (List.all_eq_true.mp perfsqrTests_ok t ht) k _ hr hmod
+
+-- non-vacuity: a two-limb square passes, and the filters do reject something
+example : sqRes256 ([0x2a05f20c1, 0x1].headD 0) = true ∧
+    perfsqrModTest (perfsqrFold (mod34lsub1 [0xfffffffe00000001, 0])) = true := by decide +kernel
+example : perfsqrModTest (perfsqrFold (mod34lsub1 [5, 1])) = false := by decide +kernel
+
+/-- mpn_perfect_square_p answers the manual's question, given that the final mpn_sqrtrem call reports a
+    zero remainder exactly for squares (`sqrtrem_rn_zero_iff` below discharges that hypothesis from the
+    square-root theorems). -/
+theorem perfect_square_p_iff (up : List Nat) (hl : Limbs up) (hne : up ≠ []) (hn : up.length + 1 < B)
+    (hs : (sqrtrem up).rn = 0 ↔ ∃ k, val up = k * k) :
+    perfectSquareP up = true ↔ ∃ k, val up = k * k := by
+  unfold perfectSquareP
+  generalize hA : sqRes256 (up.headD 0) = A
+  generalize hB : perfsqrModTest (perfsqrFold (mod34lsub1 up)) = Bv
+  constructor
+  · intro h
+    cases A <;> cases Bv <;> simp at h
+    exact hs.mp h
+  · rintro ⟨k, hk⟩
+    obtain ⟨h1, h2⟩ := perfsqr_filters_sound up k hl hne hn hk
+    rw [hA] at h1; rw [hB] at h2; subst h1; subst h2
+    simpa using hs.mpr ⟨k, hk⟩
+
+example : perfectSquareP [0xfffffffe00000001] = true ∧ perfectSquareP [0xfffffffe00000002] = false := by
+  decide +kernel
+
 end Mpir.Root
